@@ -217,9 +217,13 @@ def jobs(tier, seed):
         for ci, sc in enumerate(pairs):
             js.append({'harness': 'res', 'weight': 30,
                        'cfg': {'kind': kind, 'capacity': 1, 'scripts': list(sc), 'sorts': 'int' if ci % 2 else 'real'}})
-        triples = [(('hold', 'hold', 'hold'), 1), (('hold', 'hold', 'hold'), 2)]
-        if kind != 'preempt' or tier != 'quick':
+        triples = [(('hold', 'hold', 'hold'), 1)] + ([(('hold', 'hold', 'hold'), 2)] if kind != 'preempt' or tier != 'quick' else [])
+        if tier != 'quick':
             triples += [(('hold', 'giveup', 'hold'), 1), (('with', 'hold', 'withexc'), 1), (('rel2', 'giveup', 'with'), 2)]
+        elif kind == 'res':
+            triples += [(('hold', 'giveup', 'hold'), 1), (('with', 'hold', 'withexc'), 1)]
+        elif kind == 'prio':
+            triples += [(('rel2', 'giveup', 'with'), 2)]
         if tier != 'quick':
             allc = list(itertools.product(base, repeat=3))
             rng.shuffle(allc)
